@@ -166,6 +166,8 @@ def mk_os(terms):
                 return ONE
             continue
         for u in (t[2] if t[1] == "os" else (t,)):
+            if u[1] in ("nos", "sp", "os"):
+                return None   # not a plain term: no exact or-sum form
             if u[1] == "xs":
                 xs_terms.add(u)
             else:
